@@ -88,11 +88,22 @@ class Field(V):
 
 
 class LoopVar(V):
+    """A compile-time loop variable.  ``canon`` names it by what it ranges
+    over (``each(node.assignments)``), so that renaming the variable or
+    iterating the same collection twice gives the same text."""
     fields = ("iter",)
 
-    def __init__(self, name, it):
+    def __init__(self, name, it, path=""):
         self.name = name
         self.iter = it
+        self.path = path
+
+    @property
+    def canon(self):
+        it = self.iter
+        while isinstance(it, Rev):
+            it = it.arg
+        return "each(%s)%s" % (show(it, 1), self.path)
 
 
 class Tup(V):
@@ -368,7 +379,7 @@ def show(v, depth=0, limit=4):
     if isinstance(v, Field):
         return "%s.%s" % (s(v.base), v.attr)
     if isinstance(v, LoopVar):
-        return v.name
+        return v.canon
     if isinstance(v, Tup):
         return "(%s)" % ", ".join(map(s, v.items))
     if isinstance(v, DictV):
@@ -620,14 +631,41 @@ class Interp:
             rest = stmts[i + 1:]
             if isinstance(st, ast.If):
                 return self._branch(
-                    src(st.test, 4000), st.body, st.orelse, rest, env, stack,
-                    st.lineno)
+                    self.test_text(st.test, env), st.body, st.orelse, rest,
+                    env, stack, st.lineno)
             if isinstance(st, ast.Try):
                 return self._try(st, rest, env, stack)
             kind, value, env = self.stmt(st, env, stack)
             if kind != "fall":
                 return kind, value, env
         return "fall", None, env
+
+    def test_text(self, test, env):
+        """Source text of a compile-time test with local aliases of simple
+        values (``local = node.local``) substituted, so that two tests on
+        the same fact read the same."""
+        sub = {}
+        for n in ast.walk(test):
+            if isinstance(n, ast.Name) and n.id in env:
+                v = env[n.id]
+                if isinstance(v, Field) and isinstance(
+                        v.base, (Param, Field, LoopVar)):
+                    sub[n.id] = show(v)
+                elif isinstance(v, LoopVar):
+                    sub[n.id] = v.canon
+        if not sub:
+            return src(test, 4000)
+
+        class T(ast.NodeTransformer):
+            def visit_Name(self, n):
+                if n.id in sub:
+                    return ast.parse(sub[n.id], mode="eval").body
+                return n
+        import copy
+        try:
+            return src(T().visit(copy.deepcopy(test)), 4000)
+        except SyntaxError:
+            return src(test, 4000)
 
     def _branch(self, test, body, orelse, rest, env, stack, lineno,
                 pre_a=None):
@@ -929,6 +967,17 @@ class Interp:
         if isinstance(target, ast.Starred):
             self.assign(target.value, value, env, stack, st)
 
+    def bind_loop(self, target, it, env):
+        def rec(t, path):
+            if isinstance(t, ast.Name):
+                env[t.id] = LoopVar(t.id, it, path)
+            elif isinstance(t, (ast.Tuple, ast.List)):
+                for i, e in enumerate(t.elts):
+                    rec(e, path + "[%d]" % i)
+            elif isinstance(t, ast.Starred):
+                rec(t.value, path)
+        rec(target, "")
+
     def _loop(self, st, env, stack):
         if isinstance(st, ast.While):
             it = Sym("while " + src(st.test))
@@ -957,16 +1006,11 @@ class Interp:
                 if k == "brk":
                     break
             return "fall", None, env
-        name = src(var) if var is not None else "<while>"
+        name = ("each(%s)" % show(it, 1)) if var is not None else "<while>"
         e2 = dict(env)
         # fresh accumulators so that the body's emissions can be isolated
         if var is not None:
-            if isinstance(var, ast.Name):
-                e2[var.id] = LoopVar(var.id, it)
-            else:
-                for n in ast.walk(var):
-                    if isinstance(n, ast.Name):
-                        e2[n.id] = LoopVar(n.id, it)
+            self.bind_loop(var, it, e2)
         k, v, e2 = self.block(st.body, e2, stack)
         if k == "ret":
             # "for m in finditer: ...; break/return" -- search loops
@@ -1160,7 +1204,7 @@ class Interp:
     def ev_IfExp(self, node, env, stack):
         a = self.ev(node.body, env, stack)
         b = self.ev(node.orelse, env, stack)
-        return Alt(src(node.test, 4000), a, b, node.lineno)
+        return Alt(self.test_text(node.test, env), a, b, node.lineno)
 
     def ev_BoolOp(self, node, env, stack):
         vals = [self.ev(v, env, stack) for v in node.values]
@@ -1217,17 +1261,16 @@ class Interp:
         g = node.generators[0]
         it = self.ev(g.iter, env, stack)
         e2 = dict(env)
-        for n in ast.walk(g.target):
-            if isinstance(n, ast.Name):
-                e2[n.id] = LoopVar(n.id, it)
+        self.bind_loop(g.target, it, e2)
         body = self.ev(node.elt, e2, stack)
         if g.ifs:
             body = Alt(" and ".join(src(i, 4000) for i in g.ifs), body, Seq(),
                        node.lineno)
-        rev = False
-        if isinstance(it, Rev):
-            rev, it = True, it.arg
-        return Seq((Loop(src(g.target), it, Seq((body,)), rev, node.lineno),))
+        rev = isinstance(it, Rev)
+        return Seq((Loop("each(%s)" % show(it.arg if isinstance(it, Rev)
+                                            else it, 1),
+                         it.arg if isinstance(it, Rev) else it,
+                         Seq((body,)), rev, node.lineno),))
 
     def ev_BinOp(self, node, env, stack):
         a = self.ev(node.left, env, stack)
